@@ -102,7 +102,7 @@ pub fn run_case(c: &Case, idx: u64) -> String {
 }
 
 pub fn main(tier: &str, seed: u64, n_override: Option<u64>) {
-    let n = n_override.unwrap_or(if tier == "thorough" { 200_000 } else { 3_000 });
+    let n = n_override.unwrap_or(if tier == "thorough" { 40_000 } else { 3_000 });
     let mut rng = Rng::new(seed ^ 0xC07);
     for idx in 0..n { let c = gen_case(&mut rng, idx); println!("{}", run_case(&c, idx)); }
 }
